@@ -132,8 +132,8 @@ namespace Demo
 @[reducible] def sys : Sys where
   V := Nat
   St := Nat
-  Cfg := Nat
-  Chunk := Bytes
+  Call := IOp Nat Bytes
+  isCreate := IOp.isCreate
   Obs := Nat × Bool
   g0 := fun _ => 7
   step := fun g st o =>
@@ -189,8 +189,8 @@ namespace Counter
 @[reducible] def sys : Sys where
   V := Nat
   St := Unit
-  Cfg := Unit
-  Chunk := Unit
+  Call := IOp Unit Unit
+  isCreate := IOp.isCreate
   Obs := Nat
   g0 := fun _ => 0
   step := fun g _ _ => (some (), g 0, none)
